@@ -98,6 +98,34 @@ def admits_addr(ctxs, key, value):
 ALL_TYPES = "Acfg,Appl,ApplClearState,ApplCloseOut,ApplCreation,ApplDeleteApplication,ApplNoOp,ApplOptIn,ApplUpdateApplication,Axfer,KeyReg,Pay"
 
 
+def appid_zero_pattern(text):
+    """known finding D16 concerns the ApplicationID patterns the tool INTERPRETS: a comparison with the constant 0 and the bare
+    use of the field as a condition.  A comparison of ApplicationID with a NON-ZERO literal carries no kind information for
+    the tool (and must not: `ApplicationID != 7` says nothing about creation).  True iff some ApplicationID read of the
+    program is not visibly such a non-zero comparison (then the coarse D16 mask applies)."""
+    lines = [l.split("//")[0].strip() for l in text.split("\n")]
+    lines = [l for l in lines if l]
+
+    def nonzero_push(l):
+        m = re.match(r"^(int|pushint)\s+(0x[0-9a-fA-F]+|\d+)$", l)
+        if not m:
+            return False
+        try:
+            return avm.parse_int(m.group(2)) != 0
+        except Exception:  # pylint: disable=broad-except
+            return False
+    for k, l in enumerate(lines):
+        if re.search(r"\bApplicationID\b", l):
+            nxt = lines[k + 1] if k + 1 < len(lines) else ""
+            prv = lines[k - 1] if k > 0 else ""
+            cmp_after = lines[k + 2] if k + 2 < len(lines) else ""
+            std = nonzero_push(nxt) and cmp_after in ("==", "!=")
+            swp = nonzero_push(prv) and nxt in ("==", "!=")
+            if not (std or swp):
+                return True
+    return False
+
+
 def relevant_labels(txn):
     out = []
     if txn["TypeEnum"] == 1:
@@ -128,9 +156,9 @@ def check_txn_against(ctxs, fam, txn, text, viol, where, props, masks=True):
     # C07 / C10 kinds (with the D16 masks)
     ts = set(ctxs.get(fam + ":TransactionType", ALL_TYPES).split(",")) if ctxs.get(fam + ":TransactionType", ALL_TYPES) else set()
     for lab in relevant_labels(txn):
-        if masks and lab in ("Pay", "Axfer") and re.search(r"\b(OnCompletion|ApplicationID)\b", text):
+        if masks and lab in ("Pay", "Axfer") and (re.search(r"\bOnCompletion\b", text) or appid_zero_pattern(text)):
             continue  # known finding D16: OnCompletion/ApplicationID comparisons drop Pay/Axfer
-        if masks and lab.startswith("Appl") and re.search(r"\b(TypeEnum|ApplicationID)\b", text):
+        if masks and lab.startswith("Appl") and (re.search(r"\bTypeEnum\b", text) or appid_zero_pattern(text)):
             continue  # known finding D16: TypeEnum/ApplicationID comparisons drop Appl<OnCompletion> labels
         if lab not in ts:
             viol.append((props["type"], f"{where}: {fam}:TransactionType = {sorted(ts)} lacks {lab} of an approved transaction"))
